@@ -31,7 +31,7 @@ ASSUMPTIONS = [
     'outside the premise "with point T = t*G"',
 ]
 NSH = 16
-NTUP = {'quick': 480, 'thorough': 8000}
+NTUP = {'quick': 480, 'thorough': 24_000}
 O = isa.op
 L = E.L
 MASK = (1 << 255) - 1
